@@ -5,6 +5,7 @@ from .. import panic as P
 from .C05 import reachable_fns
 
 META = {
+    "all_features": True,
     "explanation": "Panic-path enumeration (same engine as C05) over the call-graph closure of the validation / check entry points of essential-check, "
                    "the predicate / mutation codecs of essential-types, the bytecode codecs of essential-asm and BytecodeMapped: every Assert terminator "
                    "(bounds, overflow, division), every call of a panicking std API and every panic!/unreachable! must be auto-discharged or match a reviewed "
